@@ -412,7 +412,49 @@ def rhyper_vetted_transport_options(ctx):
     c11.r6_vetted_transport_options(ctx)
 
 
-RULES = [rhyper_vetted_transport_options, r9_receive_error_reaches_the_loop, r8_ws_receive_buffer_fresh, r1_ws_frame_limit, r2_http_limit, r3_plumbing, r4_limit_before_read, r5_ws_oversize_arm, r6_size_gates, r7_server_builder_fields, rsib_entry_points_agree, rcfg_config_verbatim, rstatus_http_status_table, rin_inbound_limits_from_request_limit]
+def r10_body_stream_errors_are_errors(ctx):
+    """for a body without a usable Content-Length the Limited wrapper reports `too big` as an *error item* of the frame
+    stream: in read_body an Err frame leaves the function as an error on every path (it is never taken for the end of
+    the body - the frames read so far would then be parsed and dispatched as if they were the whole message)."""
+    F, R = ctx.F, ctx.R
+    rb = F.one(r"^jsonrpsee_core::http_helpers::read_body::\{closure#0\}$")
+    R.fn(rb)
+    from .common import err_return_blocks
+    errs = err_return_blocks(rb)
+    exits = {bi for bi, blk in enumerate(rb.blocks) if blk["term"] and blk["term"]["t"] == "return"}
+    arms = []
+    for l, loc in enumerate(rb.locals):
+        ty = loc["ty"]
+        if re.match(r"^std::result::Result<(http_body::|hyper::body::)?Frame<", ty) or re.match(r"^std::option::Option<std::result::Result<(http_body::|hyper::body::)?Frame<", ty):
+            nested = ty.startswith("std::option::Option<")
+            for bi, blk in enumerate(rb.blocks):
+                t = blk["term"]
+                if not t or t["t"] != "switch" or bi not in rb.reachable:
+                    continue
+                p = op_place(t["discr"])
+                if p is None:
+                    continue
+                for bj, sj, dpl, src in rb.defs.get(p["l"], []):
+                    if src[0] == "rv" and src[1]["k"] == "discr":
+                        q = src[1]["pl"]
+                        if q["l"] != l:
+                            continue
+                        ds = [e for e in q.get("p", []) if isinstance(e, dict) and "d" in e]
+                        if (nested and ds and ds[-1]["d"] == "Some") or (not nested and not ds):
+                            am = {v: tb for v, tb in t["arms"]}
+                            et = am.get("1", t["otherwise"] if "0" in am else None)
+                            if et is not None:
+                                arms.append(et)
+    from .common import result_outcome_arms
+    _oks, _errs = result_outcome_arms(rb, lambda ty: bool(re.match(r"^std::result::Result<(http_body::|hyper::body::)?Frame<", ty)))
+    arms += sorted(_errs)
+    R.floor("C07.R10", len(arms), 1, "tests of a body frame for Err in read_body")
+    for et in sorted(set(arms)):
+        ok = et in errs or flow.all_paths_pass(rb, et, errs, exits)
+        R.check(ok, "C07.R10", "read_body:frame-error-is-an-error", "an error frame ends read_body with an error", "read_body can go on (or return Ok) after the body stream reported an error: the size limit of a body without Content-Length is signalled exactly that way, so an oversized chunked request is cut at the limit and its first part is parsed and dispatched", "%s:%d" % (rb.file, block_line(rb, et)))
+
+
+RULES = [r10_body_stream_errors_are_errors, rhyper_vetted_transport_options, r9_receive_error_reaches_the_loop, r8_ws_receive_buffer_fresh, r1_ws_frame_limit, r2_http_limit, r3_plumbing, r4_limit_before_read, r5_ws_oversize_arm, r6_size_gates, r7_server_builder_fields, rsib_entry_points_agree, rcfg_config_verbatim, rstatus_http_status_table, rin_inbound_limits_from_request_limit]
 
 LEVEL_TEXT = (
     "Structural necessary conditions decided exactly from the type-checked program: which configuration field every "
